@@ -336,11 +336,55 @@ pub fn batch(req: &J) -> J {
                 Ok(u) => {
                     let mut o = observe(&u, &probes);
                     o["panicked"] = json!(false);
+                    if req.get("probe_reward").is_some() {
+                        let rid = CoinID::proposer_reward(BlockHeight(vh::height(&u)));
+                        o["reward_coin"] = match vh::coins(&u).get_coin(rid) { Some(c) => cdh_json(&c), None => J::Null };
+                        let st3 = st.clone();
+                        if let Ok(u0) = catch_unwind(AssertUnwindSafe(|| vh::unsealed_of(&st3.seal(None)).clone())) {
+                            o["fee_pool_before_action"] = json!(vh::fee_pool(&u0).to_string());
+                        }
+                    }
                     out["seal"] = o;
                 }
             }
         }
         runs.push(out);
     }
-    json!({"txhashes": txhashes, "before": before, "runs": runs})
+    let mut top = json!({"txhashes": txhashes, "before": before, "runs": runs});
+    if req.get("report_min_fee").is_some() {
+        let mult = u128_of(&req["fee_multiplier"]);
+        let mut m = serde_json::Map::new();
+        for (spec, tx) in req["txs"].as_array().unwrap().iter().zip(txs.iter()) {
+            let f = tx.base_fee(mult, 0, |c| melvm::covenant_weight_from_bytes(c));
+            m.insert(spec["name"].as_str().unwrap().to_string(), J::String(f.0.to_string()));
+        }
+        top["min_fees"] = J::Object(m);
+    }
+    top
+}
+
+
+/// C05/C09 finding probe: the covenant-weight sum inside Transaction::weight with two covenants of saturated weight
+pub fn c05_weight_sum(_req: &J) -> J {
+    let mut ops = vec![];
+    for k in 0..8u16 {
+        ops.push(OpCode::Loop(65535, 8 - k));
+    }
+    ops.push(OpCode::Noop);
+    let cov = Covenant::from_ops(&ops).to_bytes();
+    let w = melvm::covenant_weight_from_bytes(&cov);
+    let tx = Transaction {
+        kind: TxKind::Normal,
+        inputs: vec![],
+        outputs: vec![],
+        fee: CoinValue(0),
+        covenants: vec![cov.clone(), cov],
+        data: Bytes::new(),
+        sigs: vec![],
+    };
+    let r = catch_unwind(AssertUnwindSafe(|| tx.base_fee(65536, 0, |c| melvm::covenant_weight_from_bytes(c))));
+    match r {
+        Ok(f) => json!({"panicked": false, "single_covenant_weight": w.to_string(), "base_fee": f.0.to_string()}),
+        Err(_) => json!({"panicked": true, "single_covenant_weight": w.to_string(), "msg": crate::last_panic()}),
+    }
 }
